@@ -93,6 +93,24 @@ def run(tier):
             report.fail({"site": "api", "kind": kind, "code": code},
                         {"request": name, "observed": o["smiles"], "row": r, "problem": f"Glycan('{name}') {what}",
                          "replay_cmd": f"PYTHONPATH=/repo /venv/bin/python -c \"from glyles import Glycan; print(Glycan('{name}').get_smiles())\""})
+    # 2b. the alditol served for every code -- whether from a row of its own, an alias or anything else -- is the reduction
+    #     of that code's ring entries (Spec/Skeleton.reduce_ring of the row, the former anomeric centre exempt)
+    areqs, ameta = [], []
+    for r in table:
+        if r["table"] in ("p", "f") and r["config"] == 0 and r["name"] not in ("Unk", "Api", "Suc"):
+            nm = r["name"] + ("f" if r["table"] == "f" else "") + "-ol"
+            areqs.append({"iupac": nm}); ameta.append((r, nm))
+    n_ald = 0
+    for (r, nm), o in zip(ameta, C.run_impl_parallel("convert_many", areqs)):
+        if not o["smiles"]:
+            continue                                  # no alditol served for this ring form
+        n_ald += 1
+        report.case("alditol:" + nm, True)
+        v = drv.call("skeleton", "ol", o["smiles"], r["smiles"])
+        if v == "0":
+            report.fail({"site": "api", "kind": "alditol-not-the-reduction", "code": r["key"]},
+                        {"request": nm, "observed": o["smiles"], "ring_row": r,
+                         "problem": f"Glycan('{nm}') is not the alditol that the library's own ring entry {r['key']} reduces to"})
     # 3. the anomer-changing API the merger uses on these entries (Monomer.alpha / beta / undefined): from any of the three
     #    forms of a code it gives the a row, the b row and the row without anomer
     import random as _random
